@@ -27,6 +27,7 @@ type rTicket struct {
 }
 
 type rWorld struct {
+	tls     bool // standard TLS 1.2 path (RSA key exchange) instead of GMSSL
 	suite   uint16
 	cfg     *gmtls.Config
 	ring    []int // ticket key ids, newest first
@@ -55,10 +56,31 @@ var rOpNames = []string{"connect(no ticket)", "connect(newest ticket)", "connect
 func newRWorld(suite uint16) *rWorld {
 	p := tlsk.Get()
 	w := &rWorld{suite: suite, ring: []int{1}, nextKey: 2}
-	w.cfg = &gmtls.Config{GMSupport: &gmtls.GMSupport{}, Certificates: []gmtls.Certificate{p.Sign, p.Enc}, Time: tlsk.FixedTime, Rand: wire.NewRand(71),
-		CipherSuites: []uint16{gmtls.GMTLS_ECC_SM4_CBC_SM3, gmtls.GMTLS_ECC_SM4_GCM_SM3}, ClientCAs: p.Roots}
+	if suite == gmref.SuiteAESCBC || suite == gmref.SuiteAESGCM {
+		w.tls = true
+		w.cfg = &gmtls.Config{Certificates: []gmtls.Certificate{p.RSA}, Time: tlsk.FixedTime, Rand: wire.NewRand(71), MinVersion: 0x0303, MaxVersion: 0x0303,
+			CipherSuites: []uint16{gmref.SuiteAESCBC, gmref.SuiteAESGCM}, ClientCAs: p.StdRootsG}
+	} else {
+		w.cfg = &gmtls.Config{GMSupport: &gmtls.GMSupport{}, Certificates: []gmtls.Certificate{p.Sign, p.Enc}, Time: tlsk.FixedTime, Rand: wire.NewRand(71),
+			CipherSuites: []uint16{gmtls.GMTLS_ECC_SM4_CBC_SM3, gmtls.GMTLS_ECC_SM4_GCM_SM3}, ClientCAs: p.Roots}
+	}
 	w.setKeys()
 	return w
+}
+
+func (w *rWorld) clientIdentity() gmref.Identity {
+	if w.tls {
+		p := tlsk.Get()
+		return gmref.Identity{Certs: [][]byte{p.StdClient.Certificate[0]}, TLSKey: p.StdClient.PrivateKey}
+	}
+	return tlsk.ClientIdentity()
+}
+
+func (w *rWorld) clientCert() []byte {
+	if w.tls {
+		return tlsk.Get().StdClient.Certificate[0]
+	}
+	return tlsk.Get().Client.Certificate[0]
 }
 
 func (w *rWorld) setKeys() {
@@ -70,10 +92,15 @@ func (w *rWorld) setKeys() {
 }
 
 func other(s uint16) uint16 {
-	if s == gmref.SuiteCBC {
+	switch s {
+	case gmref.SuiteCBC:
 		return gmref.SuiteGCM
+	case gmref.SuiteGCM:
+		return gmref.SuiteCBC
+	case gmref.SuiteAESCBC:
+		return gmref.SuiteAESGCM
 	}
-	return gmref.SuiteCBC
+	return gmref.SuiteAESCBC
 }
 
 // step applies one operation; it returns a description and, for connections, judges the outcome.
@@ -123,6 +150,9 @@ func (w *rWorld) step(c *harness.Ctx, op int, hist string, vec []int) {
 	}
 	w.seed++
 	setup := func(q *gmref.Peer) {
+		if w.tls {
+			q.UseTLS()
+		}
 		q.Suites = offered
 		q.OfferTicket = true
 		if t != nil {
@@ -133,7 +163,7 @@ func (w *rWorld) step(c *harness.Ctx, op int, hist string, vec []int) {
 			}
 		}
 	}
-	o := tlsk.RunLibVsRef(w.cfg, false, tlsk.LibApp(false), tlsk.ClientIdentity(), w.seed, setup, &gmref.Script{SendClientCert: sendCert, Data: tlsk.PingPong(true)}, nil)
+	o := tlsk.RunLibVsRef(w.cfg, false, tlsk.LibApp(false), w.clientIdentity(), w.seed, setup, &gmref.Script{SendClientCert: sendCert, Data: tlsk.PingPong(true)}, nil)
 	tag := fmt.Sprintf("suite=%04x history [%s]", w.suite, hist)
 	c.Add("transitions", 1)
 	peer := o.Ref.Peer
@@ -190,7 +220,7 @@ func (w *rWorld) step(c *harness.Ctx, op int, hist string, vec []int) {
 			}
 		}
 	}
-	if len(o.Lib.PeerCerts) > 0 && !bytes.Equal(o.Lib.PeerCerts[0], tlsk.Get().Client.Certificate[0]) {
+	if len(o.Lib.PeerCerts) > 0 && !bytes.Equal(o.Lib.PeerCerts[0], w.clientCert()) {
 		c.Violate("reference-client:wrong-client-certificate", fmt.Sprintf("[%s]", tag), vec, tag)
 	}
 	if peer.NewTicket != nil {
@@ -239,7 +269,7 @@ func refClientUnits(tier string) []harness.Unit {
 		depth = 5
 	}
 	var u []harness.Unit
-	for _, s := range []uint16{gmref.SuiteCBC, gmref.SuiteGCM} {
+	for _, s := range []uint16{gmref.SuiteCBC, gmref.SuiteGCM, gmref.SuiteAESCBC, gmref.SuiteAESGCM} {
 		for f := 0; f < rNumOps; f++ {
 			u = append(u, refClientHistUnit(s, f, depth))
 		}
